@@ -804,3 +804,22 @@ Proof.
   right. exists []. split; [vm_compute; reflexivity|]. split; [reflexivity|].
   cbn. repeat split; reflexivity.
 Qed.
+
+(* ------------------------------------------------------------------ C07 composition: gate + detection
+   a corrupted frame handed to an empty receiver: nothing is delivered whose frame has the
+   extent of the original (a delivery can only stem from a span of different length, i.e. when
+   the corruption changed the extent computed from function code / byte count) *)
+Theorem rtu_no_delivery_same_extent cfg st frame' st' ds x :
+  known_rules (cf_rules cfg) -> r_buf st = [] -> wfb frame' = true -> crc_ok frame' = false ->
+  rtu_recv cfg st frame' = (st', ds, x) ->
+  forall pdu uid, In (pdu, uid) ds -> forall u, uid = Z.of_N u -> length (spec_adu_rtu u pdu) <> length frame'.
+Proof.
+  intros Hk Hb Hw Hbad R pdu uid Hin u Hu Hlen.
+  destruct (rtu_gate cfg st frame' st' ds x Hk) with (pdu := pdu) (uid := uid) as (u' & rest & Hsplit & Hu' & Hok & _);
+    [rewrite Hb; exact Hw | exact R | exact Hin |].
+  assert (u' = u) by lia. subst u'.
+  rewrite Hb in Hsplit. cbn [app] in Hsplit.
+  assert (rest = []).
+  { apply (f_equal (@length N)) in Hsplit. rewrite app_length in Hsplit. destruct rest; [reflexivity|cbn [length] in Hsplit; lia]. }
+  subst rest. rewrite app_nil_r in Hsplit. rewrite <- Hsplit in Hok. congruence.
+Qed.
